@@ -104,7 +104,7 @@ Section N2.
     rewrite skipEq_Parse. destruct (Parse idna_raw c (x0 :: x')); try reflexivity. apply skipEq_UrlParse.
   Qed.
 
-  (* the rest of the search-parameter machinery does not read it either *)
+  (* the rest of the SearchParams code does not read it either *)
   Lemma skipEq_QueryEscape s : QueryEscape (with_skipEq c b) s = QueryEscape c s.
   Proof. reflexivity. Qed.
   Lemma skipEq_sp_init q : sp_init (with_skipEq c b) q = sp_init c q.
@@ -275,6 +275,14 @@ Proof. vm_compute. reflexivity. Qed.
 Lemma acceptInvalid_neutral_refuted : exists x,
   Parse id_idna (with_acceptInvalid default_cfg true) x <> Parse id_idna (with_acceptInvalid default_cfg false) x.
 Proof. exists (bs "http://a"%string ++ [255] ++ bs "b/"%string). vm_compute. discriminate. Qed.
+(* validity of the CLEANED input is not enough: the tab/newline removal itself reads the option.
+   Here the bytes C3 09 A9 become the valid sequence C3 A9 when the tab is removed byte-wise (option on),
+   but two U+FFFD when the input is first read as scalar values (option off). *)
+Lemma acceptInvalid_cleaning_refuted : exists x,
+  valid_utf8 (cleaned true x None) = true /\
+  Parse id_idna (with_acceptInvalid default_cfg true) x <> Parse id_idna (with_acceptInvalid default_cfg false) x.
+Proof. exists (bs "http://h/"%string ++ [195; 9; 169]). split; [vm_compute; reflexivity|vm_compute; discriminate]. Qed.
+
 Lemma sp_scalar_refuted : exists s,
   sp_scalar (with_acceptInvalid default_cfg true) s <> sp_scalar (with_acceptInvalid default_cfg false) s.
 Proof. exists [255]. vm_compute. discriminate. Qed.
